@@ -239,23 +239,22 @@ pub fn configs(tier: Tier) -> Vec<InCfg> {
         let full: Vec<T> = if role == Role::Server {
             vec![q(1, 1), q(2, 1), T::Sub(1), T::Unsub(1), T::PubRel(1), q(1, 2), q(2, 2), T::Sub(2), T::PubRel(2)]
         } else {
-            // clients: inbound QoS 2 is the known finding C03-1/C03-2 (answered with PUBACK), so only QoS 1 and PUBREL here
-            vec![q(1, 1), T::PubRel(1), q(1, 2), T::PubRel(2), q(1, 3)]
+            vec![q(1, 1), q(2, 1), T::PubRel(1), q(1, 2), q(2, 2), T::PubRel(2), q(1, 3)]
         };
-        let small: Vec<T> = if role == Role::Server { vec![q(1, 1), q(2, 1), T::Sub(1), T::Unsub(1), T::PubRel(1), q(1, 2)] } else { vec![q(1, 1), T::PubRel(1), q(1, 2)] };
+        let small: Vec<T> = if role == Role::Server { vec![q(1, 1), q(2, 1), T::Sub(1), T::Unsub(1), T::PubRel(1), q(1, 2)] } else { vec![q(1, 1), q(2, 1), T::PubRel(1), q(1, 2)] };
         let variants: Vec<(Vec<T>, u8, Vec<T>)> = if tier == Tier::Quick {
-            vec![(full.clone(), 3, vec![]), (small.clone(), 4, vec![]), (small.clone(), 3, if role == Role::Server { vec![q(2, 1), T::PubRel(1)] } else { vec![q(1, 1)] })]
+            vec![(full.clone(), 3, vec![]), (small.clone(), 4, vec![]), (small.clone(), 3, if role == Role::Server { vec![q(2, 1), T::PubRel(1)] } else { vec![q(2, 1), T::PubRel(1)] })]
         } else {
             if role == Role::Server {
                 vec![(full.clone(), 4, vec![]), (small.clone(), 5, vec![]), (full.clone(), 3, vec![q(2, 1), T::PubRel(1)]), (full.clone(), 3, vec![q(1, 1), T::Sub(2)])]
             } else {
-                vec![(full.clone(), 4, vec![]), (small.clone(), 5, vec![]), (full.clone(), 3, vec![q(1, 1)])]
+                vec![(full.clone(), 4, vec![]), (small.clone(), 5, vec![]), (full.clone(), 3, vec![q(2, 1), T::PubRel(1)])]
             }
         };
         let mut variants: Vec<(Vec<T>, u8, Vec<T>, Vec<GateOutcome>)> = variants.into_iter().map(|(a, m, p)| (a, m, p, vec![GateOutcome::Ok])).collect();
         if ver == Ver::V5 {
             // handler errors the application maps to a negative acknowledgement finish the exchange as well
-            let a: Vec<T> = if role == Role::Server { vec![q(1, 1), q(2, 1), T::PubRel(1), q(1, 2)] } else { vec![q(1, 1), q(1, 2)] };
+            let a: Vec<T> = vec![q(1, 1), q(2, 1), T::PubRel(1), q(1, 2)];
             variants.push((a, if tier == Tier::Quick { 3 } else { 4 }, vec![], vec![GateOutcome::Ok, GateOutcome::Nack(0x80)]));
         }
         // a duplicate whose payload arrives in pieces: v5 refuses it and carries on, v3 ends the connection
@@ -288,7 +287,7 @@ pub fn run(tier: Tier) -> i32 {
         c.known = known.clone();
         ck.explore::<In>("inbound", i, c, &ecfg);
     }
-    ck.rule = "per role: every history of up to 3-5 packets over {PUBLISH q1/q2, SUBSCRIBE, UNSUBSCRIBE, PUBREL} x id in {1,2} (clients: PUBLISH/PUBREL only), also after a completed exchange (prologue), with publish-handler and protocol-service completions placed by the explorer at every position (v5 also with handler errors mapped to a negative acknowledgement); reference set model: an id is certainly in use until its handler completed (QoS 2: until PUBREL was sent) and certainly free once its final acknowledgement was seen on the wire; in between no demand. distinct_nontrivial = distinct final observations with >= 2 packets".into();
+    ck.rule = "per role: every history of up to 3-5 packets over {PUBLISH q1/q2, SUBSCRIBE, UNSUBSCRIBE, PUBREL} x id in {1,2} (clients: PUBLISH q1/q2 and PUBREL), also after a completed exchange (prologue), with publish-handler and protocol-service completions placed by the explorer at every position (v5 also with handler errors mapped to a negative acknowledgement); reference set model: an id is certainly in use until its handler completed (QoS 2: until PUBREL was sent) and certainly free once its final acknowledgement was seen on the wire; in between no demand. distinct_nontrivial = distinct final observations with >= 2 packets".into();
     ck.assumptions = vec!["FIFO task order of ntex-rt; nondeterminism = timing of environment events (DESIGN 2.4)".into()];
     ck.finish()
 }
